@@ -179,6 +179,9 @@ func newPool(min, max int64, em int, text string, apis map[string]interface{}) (
 	return engine.NewGenginePool(min, max, em, text, apis)
 }
 
+// StagHolder is injected as stagh; its member S is the stop tag of the call.
+type StagHolder struct{ S engine.Stag }
+
 // Outcome is what one call did, as seen from the caller.
 type Outcome struct {
 	Err      error
@@ -195,7 +198,10 @@ func (t *Target) Invoke(c Call, lg *Log) (out Outcome) {
 	if t.Obs != nil {
 		t.Obs.Use(lg)
 	}
-	stag := &engine.Stag{}
+	// the tag handed to the engine is a struct-valued member of an injected object: rules reach it as
+	// stag.StopTag (the pointer injected under its own name) or as stagh.S.StopTag (through the holder)
+	holder := &StagHolder{}
+	stag := &holder.S
 	out.Stag = stag
 	out.lg = lg
 	if c.NilStag {
@@ -208,7 +214,7 @@ func (t *Target) Invoke(c Call, lg *Log) (out Outcome) {
 		}
 	}()
 	if t.Pool != nil {
-		data := map[string]interface{}{"stag": stag}
+		data := map[string]interface{}{"stag": stag, "stagh": holder}
 		for dk, dv := range c.Data {
 			data[dk] = dv
 		}
@@ -265,7 +271,7 @@ func (t *Target) Invoke(c Call, lg *Log) (out Outcome) {
 				// the two slots of this form carry the request's own observers
 				e, res = p.ExecuteRulesWithSpecifiedEM("st", stf, "en", c.Data["en"])
 			} else {
-				e, res = p.ExecuteRulesWithSpecifiedEM("stag", stag, "", nil)
+				e, res = p.ExecuteRulesWithSpecifiedEM("stag", stag, "stagh", holder)
 			}
 		case MPoolEMMulti:
 			e, res = p.ExecuteRulesWithMultiInputWithSpecifiedEM(data)
@@ -280,6 +286,7 @@ func (t *Target) Invoke(c Call, lg *Log) (out Outcome) {
 		return
 	}
 	t.DC.Add("stag", stag)
+	t.DC.Add("stagh", holder)
 	for dk, dv := range c.Data {
 		t.DC.Add(dk, dv)
 	}
